@@ -16,7 +16,7 @@ for name, r in sorted(results.items()):
     src = f"/tmp/seeds/{name}"
     if not r["confirmed"] or not os.path.isdir(src):
         continue
-    m = re.match(r"(C\d\d)-([mnqstu])(\d+)$", name)
+    m = re.match(r"(C\d\d)-([mnqstuv])(\d+)$", name)
     prop, rnd, k = m.group(1), m.group(2), m.group(3)
     dst = f"/verif/seeded/{name}"
     os.makedirs(dst, exist_ok=True)
@@ -33,7 +33,7 @@ for name, r in sorted(results.items()):
         "id": name,
         "breaks_property": prop,
         "property_title": TITLES.get(prop, ""),
-        "origin": "written by an independent sub-agent that saw only the property text and a scratch worktree of /repo (nothing from /verif); round " + {"m": "1", "n": "2 (asked to avoid the ideas of round 1)", "q": "3 (asked to avoid the ideas of rounds 1 and 2)", "s": "4 (asked to avoid the ideas of rounds 1 to 3)", "t": "5 (asked to avoid the ideas of rounds 1 to 4)", "u": "6 (asked to avoid the ideas of rounds 1 to 5)"}[rnd] + (". patch.diff was re-based by hand onto /repo 328e961 after the struct-name pre-pass fix; patch.original.diff is the sub-agent's diff against f68d4cd" if os.path.exists(f"{src}/patch.original.diff") else ""),
+        "origin": "written by an independent sub-agent that saw only the property text and a scratch worktree of /repo (nothing from /verif); round " + {"m": "1", "n": "2 (asked to avoid the ideas of round 1)", "q": "3 (asked to avoid the ideas of rounds 1 and 2)", "s": "4 (asked to avoid the ideas of rounds 1 to 3)", "t": "5 (asked to avoid the ideas of rounds 1 to 4)", "u": "6 (asked to avoid the ideas of rounds 1 to 5)", "v": "7 (asked to avoid the ideas of rounds 1 to 6)"}[rnd] + (". patch.diff was re-based by hand onto /repo 328e961 after the struct-name pre-pass fix; patch.original.diff is the sub-agent's diff against f68d4cd" if os.path.exists(f"{src}/patch.original.diff") else ""),
         "files_changed": files,
         "needs_to_manifest": notes.strip().split("\n\n")[0][:1200],
         "confirmed_by": [
